@@ -74,11 +74,13 @@ type Tok struct {
 	Role       Role
 	NoNLBefore bool     // restricted production: no line break before this token
 	StmtStart  bool     // first token of a statement
+	ListMember bool     // ... that is a member of a statement list (program, block, function body)
 	StmtPath   string   // path of the statement this token starts (when StmtStart) or closes (BlockClose)
 	ExprStart  bool     // first token of a position parsed as a complete expression
 	Ctx        []Ctx    // enclosing constructs, outermost first
 	Node       *ir.Node // owning node
 	PostfixOp  bool
+	EndsExpr   bool // last token of an expression (a following `(` or `[` would continue it)
 	// filled by Render
 	Off, Line, Col int
 	Gap            string // text placed before this token
@@ -92,6 +94,7 @@ type Options struct {
 	CRLF       bool // allow \r\n
 	ASI        bool // allow line-break / omitted terminators
 	NoNewlines bool // never put a line break inside a gap (C13 smart-mode inputs control them explicitly)
+	SmartASI   bool // line-break-only separators also before statements that begin with `(` or `[` (smart-semicolon inputs)
 	// GapOverride, when non-nil and returning ok, decides the gap before next.
 	GapOverride func(ch Chooser, prev, next *Tok) (string, bool)
 }
@@ -103,6 +106,7 @@ type emitter struct {
 	ctx     []Ctx
 	force   map[*ir.Node]bool
 	pathStk []string
+	inSub   bool
 }
 
 func prec(n *ir.Node) int {
@@ -176,6 +180,7 @@ func (e *emitter) fullExpr(n *ir.Node, min int) {
 }
 
 func (e *emitter) expr(n *ir.Node, min int, redundantOK bool) {
+	defer func() { e.toks[len(e.toks)-1].EndsExpr = true }()
 	wrap := prec(n) < min || e.force[n]
 	if !wrap && redundantOK && e.opt.Redundant > 0 && e.ch.Intn(1000, "redundant") < e.opt.Redundant {
 		wrap = true
@@ -327,6 +332,9 @@ func (e *emitter) term(n *ir.Node) {
 
 func (e *emitter) stmt(n *ir.Node, idx int) {
 	start := len(e.toks)
+	sub := e.inSub
+	e.inSub = false
+	defer func() { e.toks[start].ListMember = !sub }()
 	e.pathStk[len(e.pathStk)-1] = itoa(idx)
 	path := e.curPath()
 	switch n.K {
@@ -429,6 +437,7 @@ func (e *emitter) sub(n *ir.Node, tag string) {
 	save := e.pathStk[len(e.pathStk)-1]
 	e.pathStk = append(e.pathStk, "")
 	e.pathStk[len(e.pathStk)-2] = save + tag
+	e.inSub = true
 	e.stmt(n, 0)
 	e.pathStk = e.pathStk[:len(e.pathStk)-1]
 	e.pathStk[len(e.pathStk)-1] = save
@@ -589,7 +598,7 @@ func Render(ch Chooser, toks []*Tok, opt Options) string {
 					if ch.Intn(2, "asi") == 1 {
 						t.Rendered = ""
 					}
-				case !asiHazard(next) && !opt.NoNewlines:
+				case (!asiHazard(next) || (opt.SmartASI && (next.Text == "(" || next.Text == "["))) && !opt.NoNewlines:
 					if ch.Intn(2, "asi") == 1 {
 						t.Rendered = ""
 						pendingNL = true
